@@ -253,7 +253,8 @@ package keeper
 // the receiver is not a blocked address
 // verif:func (Keeper).MintingEnabled
 //@ requires [registry-inv3] denomsListed(aggregate(ctx))
-//@ ensures [denom-of-the-pair] result1 == nil && !common.IsHexAddress(denom) ==> exists j int :: 0 <= j && j < len(result0.Denoms) && result0.Denoms[j] == denom
+// (no exception for denominations that look like a hex address: fix recorded in /verif/known_findings.txt)
+//@ ensures [denom-of-the-pair] result1 == nil ==> exists j int :: 0 <= j && j < len(result0.Denoms) && result0.Denoms[j] == denom
 //@ ensures [module-enabled] result1 == nil ==> ncalls("GetParams") == 1 && callres("GetParams", 0).EnableAggregate
 //@ ensures [pair-enabled] result1 == nil ==> result0.Enabled
 //@ ensures [registered-pair] result1 == nil ==> ncalls("GetTokenPair") == 1 && callres("GetTokenPair", 1) && result0 == callres("GetTokenPair", 0)
